@@ -19,6 +19,7 @@ import (
 	"strconv"
 	"strings"
 	"sync"
+	"sync/atomic"
 	"time"
 
 	"simverif/sim"
@@ -34,6 +35,13 @@ func env(extra ...string) []string {
 	e = append(e, "GOFLAGS=-mod=mod", "GOPROXY=off", "GOSUMDB=off", "GOTOOLCHAIN=local", "GONOSUMDB=*", "GONOSUMCHECK=1")
 	return append(e, extra...)
 }
+
+var coverSeq int64
+
+// coverDir: when VERIF_COVER_DIR names a directory, workers are built with statement coverage of the library and each
+// worker process leaves a profile there (tools/cover_report.py merges them). Off by default; never used by the checks
+// registered in MANIFEST.json.
+func coverDir() string { return os.Getenv("VERIF_COVER_DIR") }
 
 func goTool() string {
 	if p, err := exec.LookPath("go1.26.8"); err == nil {
@@ -60,6 +68,10 @@ func buildWorker(tag string, race bool, instrument ...bool) string {
 	args := []string{"test", "-c", "-tags", "verif", "-o", outPath}
 	if race {
 		args = append(args, "-race")
+	}
+	if coverDir() != "" {
+		// opt-in reach measurement (VERIF_COVER_DIR): statement coverage of the library under the simulation
+		args = append(args, "-cover", "-covermode=atomic", "-coverpkg=github.com/yaricom/goNEAT/v4/...")
 	}
 	if len(instrument) > 0 && instrument[0] {
 		modfile, cleanup := instrumentedCopy(name, len(instrument) > 1 && instrument[1])
@@ -143,7 +155,11 @@ type workerResult struct {
 
 func runWorker(bin string, job *sim.Job, race bool, watchdogS int) *workerResult {
 	spec, _ := json.Marshal(job)
-	cmd := exec.Command(bin, "-test.run", "^TestSim$", "-test.timeout", "0")
+	wargs := []string{"-test.run", "^TestSim$", "-test.timeout", "0"}
+	if d := coverDir(); d != "" {
+		wargs = append(wargs, "-test.coverprofile="+filepath.Join(d, fmt.Sprintf("%s-%d-%d.cov", job.Prop, os.Getpid(), atomic.AddInt64(&coverSeq, 1))))
+	}
+	cmd := exec.Command(bin, wargs...)
 	cmd.Dir = simDir
 	gmp := envOr("VERIF_WORKER_GOMAXPROCS", "2")
 	if job.Procs > 0 && os.Getenv("VERIF_WORKER_GOMAXPROCS") == "" {
